@@ -129,6 +129,26 @@ Lemma loop_fuel_S {S R} (f : nat) (body : M S (option R)) (w : S) :
   end.
 Proof. cbn [loop_fuel]. unfold bind. destruct (body w) as [[v|] w'|w']; reflexivity. Qed.
 
+(* big-step reading of `loop { body }`: no fuel *)
+Inductive runs {S R} (body : M S (option R)) : S -> R -> S -> Prop :=
+| runs_done w r w' : body w = Val (Some r) w' -> runs body w r w'
+| runs_step w w1 r w' : body w = Val None w1 -> runs body w1 r w' -> runs body w r w'.
+Lemma loop_runs {S R} (body : M S (option R)) : forall fuel w r w',
+  loop_fuel fuel body w = Val (Done r) w' -> runs body w r w'.
+Proof.
+  induction fuel as [|f IH]; intros w r w' H; [discriminate|].
+  rewrite loop_fuel_S in H. destruct (body w) as [[v|] w1|w1] eqn:E; try discriminate.
+  - inversion H; subst. apply runs_done. exact E.
+  - eapply runs_step; [exact E|]. apply IH. exact H.
+Qed.
+Lemma runs_loop {S R} (body : M S (option R)) w r w' : runs body w r w' ->
+  exists fuel, forall f, (fuel <= f)%nat -> loop_fuel f body w = Val (Done r) w'.
+Proof.
+  induction 1 as [w r w' E|w w1 r w' E Hr (fuel & IH)].
+  - exists 1%nat. intros f Hf. destruct f; [lia|]. rewrite loop_fuel_S, E. reflexivity.
+  - exists (Datatypes.S fuel). intros f Hf. destruct f; [lia|]. rewrite loop_fuel_S, E. apply IH. lia.
+Qed.
+
 (* ---- for_range over a pure body: the result is the first index whose body yields Some ---- *)
 Lemma for_range_n_spec {St R} (body : Z -> M St (option R)) (f : Z -> option R) (s : St) :
   forall cnt lo, (forall i, lo <= i < lo + Z.of_nat cnt -> body i s = Val (f i) s) ->
